@@ -1,0 +1,52 @@
+"""Verification hooks.
+
+Off unless the environment variable LCM_VERIF is "1". With the guard on, `emit` appends one
+record per call to an in-memory list (per-process sequence number, no wall clock) that a test
+harness drains; values that are JAX tracers are never touched: an event with a traced value is
+skipped as a whole, so a hook cannot change a compiled program.
+"""
+
+import os
+
+ENABLED = os.environ.get("LCM_VERIF") == "1"
+
+_EVENTS: list = []
+_SEQ = 0
+
+
+def emit(event, **fields):
+    """Record an event (no-op unless LCM_VERIF=1)."""
+    if not ENABLED:
+        return
+    global _SEQ  # noqa: PLW0603
+    import jax
+    import numpy as np
+
+    def concrete(x):
+        if isinstance(x, jax.core.Tracer):
+            raise _TracedValueError
+        if isinstance(x, dict):
+            return {str(k): concrete(v) for k, v in x.items()}
+        if isinstance(x, list | tuple):
+            return [concrete(v) for v in x]
+        if x is None or isinstance(x, bool | int | float | str):
+            return x
+        return np.asarray(x)
+
+    try:
+        record = {k: concrete(v) for k, v in fields.items()}
+    except _TracedValueError:
+        return
+    _SEQ += 1
+    _EVENTS.append({"e": event, "seq": _SEQ, **record})
+
+
+def drain():
+    """Return and clear the recorded events."""
+    out = list(_EVENTS)
+    _EVENTS.clear()
+    return out
+
+
+class _TracedValueError(Exception):
+    pass
